@@ -50,9 +50,12 @@ class Slice:
         R1 = mkstruct(f"{t}R1", {"k": X.Int8, "r": X.Ref[S1], "ra": X.Ref[X.Float64[:]], "u": U})
         S4 = mkstruct(f"{t}S4", {"tag": X.Int64, "inner": S2})  # dynamic struct inline at a constant non-zero offset
         S5 = mkstruct(f"{t}S5", {"p": X.Float32, "q": S4[:], "r": S1[2]})
+        R2 = mkstruct(f"{t}R2", {"tag": X.Int16, "p": X.Field(X.Ref[S1]), "q": X.Field(X.Ref[X.Float64[:]], default=None)})  # explicit Field(Ref) declarations
+        R3 = mkstruct(f"{t}R3", {"n": X.Int64, "r": X.Ref[S1], "x": X.Float64[:], "y": X.Int32[:]})  # references and two dynamic fields
         S6 = mkstruct(f"{t}S6", {"n": X.Int64, "m": X.Float64[:, :], "v": X.Int32[:], "w": X.Int16[:1, :0]})  # N-d dynamic arrays not at offset 0
         self.S1, self.S2, self.S3, self.U, self.R1, self.S4, self.S5, self.S6 = S1, S2, S3, U, R1, S4, S5, S6
-        self.roots = [S1, S2, S3, R1, S4, S5, S6]
+        self.R2, self.R3 = R2, R3
+        self.roots = [S1, S2, S3, R1, S4, S5, S6, R2, R3]
         self.arrays = [
             X.Float64[:, 3], X.Int16[2:1, 3:0], X.Int64[:, :, 2], S1[:], S2[:], S2[2], X.UInt8[5], X.Float32[:],
             X.String[:], X.Int32[None:1, None:2, None:0], X.Int8[2:2, 3:0, 2:1], X.Int8[:][:], X.Float32[:][2],
